@@ -144,6 +144,11 @@ class Family:
         if len(self.samples) < 6:
             self.samples += rep.get("samples", [])[:2]
         rejected = self.validate(name, trace, consts, dotu, rep["cases"])
+        ncand = sum(1 for cand in st.get("candidates", []) for c in cand.get("cases", []))
+        if rejected or ncand:
+            ctx.log("replay %s dotu=%d: %d cases not understood by the model (their discrepancies are not judged), %d candidate discrepancies" % (
+                name, int(dotu), len(rejected), ncand))
+        self.rejected_cases = getattr(self, "rejected_cases", 0) + len(rejected)
         for cand in st.get("candidates", []):
             ok_cases = [c for c in cand.get("cases", []) if c not in rejected]
             if ok_cases:
@@ -159,7 +164,7 @@ class Family:
             ctx.inconclusive.append("no trace written for %s" % name)
             return rejected
         tc = dict(consts)
-        tc.update(Dotu=dotu, Ops=set(ALL_OPS), CreateKinds={"F", "D", "L", "H"},
+        tc.update(Dotu=dotu, Ops=set(ALL_OPS), CreateKinds={"F", "D", "L", "H", "P"},
                   FixWalk=True, FixConfine=True, FixErrno=True, FixDangling=True)
         cfgname = write_cfg(ctx, "trace-%s-%d.cfg" % (name, int(dotu)), tc, trace=True)
         # split on Reset lines into ~equal chunks
@@ -265,6 +270,8 @@ RULE = ("evaluations = steps executed three ways (model via TLC trace validation
 C16_OPS = {"Attach", "Walk", "Stat", "Clunk"}
 STATIC = cfg(InitTree="T1", Ops=C16_OPS, AttachNames={"", "a"}, MaxWalk=3)
 LINKS = cfg(InitTree="T4", Ops=C16_OPS, AttachNames={"", "a"}, MaxWalk=3)
+# a fid on a symbolic link (or anything else) that has been opened still is what it designates: stat after open
+LINKSOPEN = cfg(InitTree="T4", Ops=C16_OPS | {"Open"}, Modes={0}, AttachNames={""}, MaxWalk=1)
 DYN = cfg(InitTree="T2", Names={"a", "b"}, AttachNames={"", "a"}, RenameNames={"a", "b", "/b"}, MaxWalk=2,
           Ops=ALL_OPS - {"Write"}, Perms={420, 511}, Modes={0, 1, 17}, Lens={0, 2}, LinkTargets={"a", "zz"},
           CreateKinds={"F", "D", "L", "H"}, MaxIds=13)
@@ -281,6 +288,9 @@ def run(ctx):
     fam.replay("c16static", b1, STATIC, dotu=False, max_cases=150 if q else 0)
     b2 = fam.tour("c16links", LINKS, sample_edges=600 if q else None)
     fam.replay("c16links", b2, LINKS, dotu=True)
+    b2o = fam.tour("c16linksopen", LINKSOPEN, sample_edges=1500 if q else None)
+    fam.replay("c16linksopen", b2o, LINKSOPEN, dotu=True)
+    fam.replay("c16linksopen", b2o, LINKSOPEN, dotu=False, max_cases=60 if q else 0)
     # walks and stats interleaved with mutations (stale fids, renamed and removed objects)
     b3 = fam.simulate("c16dyn", DYN, num=120 if q else 2500, depth=25 if q else 30)
     fam.replay("c16dyn", b3, DYN, dotu=True)
